@@ -330,7 +330,9 @@ func vc07SharedStores(a, b *dns.Msg) (shared []string) {
 // ---------------------------------------------------------------------------
 // Message generator.
 
-var vc07Names = []string{"a.test.", "b.test.", "www.a.test.", "WwW.Mixed.Test.", "x-1.y.z.test.", "."}
+// Names include the minimal ones (the root, a one-letter name) and a label of
+// the maximal length.
+var vc07Names = []string{"a.test.", "b.test.", "www.a.test.", "WwW.Mixed.Test.", "x-1.y.z.test.", ".", "a.", strings.Repeat("l", 63) + ".test."}
 
 func vc07Name(t *rapid.T, l string) string {
 	return rapid.SampledFrom(vc07Names).Draw(t, l)
@@ -431,7 +433,7 @@ func vc07AnswerRR(t *rapid.T) dns.RR {
 	case 5:
 		return &dns.SRV{Hdr: vc07Hdr(t, dns.TypeSRV), Target: vc07Name(t, "srv"), Priority: 1, Weight: uint16(rapid.IntRange(0, 9).Draw(t, "weight")), Port: 853}
 	case 6:
-		return &dns.TXT{Hdr: vc07Hdr(t, dns.TypeTXT), Txt: rapid.SliceOfN(rapid.StringMatching(`[a-z0-9=]{0,20}`), 1, 4).Draw(t, "txt")}
+		return &dns.TXT{Hdr: vc07Hdr(t, dns.TypeTXT), Txt: rapid.SliceOfN(rapid.OneOf(rapid.StringMatching(`[a-z0-9=]{0,20}`), rapid.SampledFrom([]string{"", strings.Repeat("t", 255)})), 1, 4).Draw(t, "txt")}
 	case 7, 8, 9:
 		return &dns.HTTPS{SVCB: dns.SVCB{Hdr: vc07Hdr(t, dns.TypeHTTPS), Priority: uint16(rapid.IntRange(0, 3).Draw(t, "prio")), Target: vc07Name(t, "svcTarget"), Value: vc07SVCBValues(t)}}
 	case 10:
